@@ -212,6 +212,16 @@ func (r *Run) verifyImage(img *Image, idx int) *Violation {
 		db.Close()
 	}()
 	r.probe("fault:" + img.Kind + "_image_verified")
+	if img.Kind == "torn" {
+		switch {
+		case strings.Contains(img.At, "mwrite-wal"):
+			r.probe("torn_wal_cut")
+		case strings.Contains(img.At, "mwrite-vlog"):
+			r.probe("torn_vlog_cut")
+		case strings.Contains(img.At, "MANIFEST"):
+			r.probe("torn_manifest_cut")
+		}
+	}
 	if img.Phase != "" {
 		r.probe("crash_in_" + img.Phase)
 	}
@@ -317,6 +327,12 @@ func ExecuteCrash(t *testing.T, c *Case, prof *Profile, keepHist bool) Outcome {
 		}
 		max := 400
 		r.disk = NewDiskTracker(uniqueDirs(r.dir, r.vdir), c.Faults.Power, every, max)
+		if c.Faults.Torn {
+			r.disk.Torn = true
+			r.disk.TornEvery = c.Faults.TornEvery
+			r.disk.TornCuts = 12
+			r.disk.MaxImgs = 900
+		}
 		r.disk.snapshot = func() (uint64, int, uint64, string) {
 			r.mu.Lock()
 			defer r.mu.Unlock()
@@ -349,6 +365,14 @@ func ExecuteCrash(t *testing.T, c *Case, prof *Profile, keepHist bool) Outcome {
 				})
 			}()
 			if v != nil {
+				if k := matchKnown(r.c.Prop, v); k != nil {
+					// a recorded, unrepaired genuine defect: count it, keep exploring
+					r.harness = ""
+					r.pmu.Lock()
+					r.stats.Known[k.What]++
+					r.pmu.Unlock()
+					continue
+				}
 				r.viol = v
 				r.harness = ""
 				break
